@@ -8,6 +8,19 @@ import "sync"
 // Yield, when set, is called before every lock acquisition (the scheduler parks the caller).
 var Yield func(what string)
 
+// LoopYield, when set, is called at the top of every iteration of the event loops of the capture
+// packages (verif/rewrite inserts a call to Loop into every bare `for { ... }` statement there), so
+// that the simulator can interleave other goroutines between two iterations of a loop that has no
+// seam of its own (the loop that drains the local packet buffer).
+var LoopYield func(what string)
+
+// Loop is the inserted call.
+func Loop(what string) {
+	if y := LoopYield; y != nil {
+		y(what)
+	}
+}
+
 type waiter struct {
 	ch     chan struct{}
 	writer bool
